@@ -304,6 +304,17 @@ def check_case(case):
         ok, r = call('project_chain_to_samples', cs.project_chain_to_samples, chvals, chv, sv, cv)
         if ok:
             expect('project_chain_to_samples', nanlist(r), per_sample(lambda c: float(chvals[rchain[rsub[c]]]) if rsub[c] >= 0 else 'nan'))
+        # the iterator class walks the same maps: cycles, selected cycles and chains, each with exactly its samples
+        from emd.cycles import IterateCycles
+        for through, want in (('cycles', [samples_of_cycle[c] for c in range(K)]),
+                              ('subset', [samples_of_cycle[cyc_of_sub[s_]] for s_ in range(nsub)]),
+                              ('chains', [tuple(i for s_ in subs_of_chain[ch] for i in samples_of_cycle[cyc_of_sub[s_]]) for ch in range(nchain)])):
+            if K == 0 or (through != 'cycles' and nsub == 0):
+                continue
+            ok, r = call('IterateCycles:%s' % through, lambda: [tuple(int(v) for v in np.asarray(inds).reshape(-1))
+                                                                   for _, inds in IterateCycles(iter_through=through, cycle_vect=cv, subset_vect=sv, chain_vect=chv)])
+            if ok:
+                expect('IterateCycles:%s' % through, r, want)
         # the cycle vector as the [n x 1] column that get_cycle_vector returns and the container holds: same answers
         cvc = cv[:, None].copy()
         ok, r = call('project_cycles_to_samples:column', cs.project_cycles_to_samples, cycvals, cvc)
